@@ -61,11 +61,21 @@ def checkTd (dynTD : Bool) (st : SpecSt) (i : Nat) (e : OEv) : SpecSt :=
   -- (name, seed, time the value is a function of): a TimeSampledFn shares its table with the
   -- distribution it samples, at the sample time
   let key : Option (String × Int × TimeV) := match e.touched with
-    | some { g := _, kind := .td n s } => some (n, s, e.clock.time)
-    | some { g := _, kind := .sampled n s p o } => some (n, s, sampleTime e.clock.time p o)
+    | some { g := _, kind := .td n s, own := _ } => some (n, s, e.clock.time)
+    | some { g := _, kind := .sampled n s p o, own := _ } => some (n, s, sampleTime e.clock.time p o)
     | _ => none
+  let own := match e.touched with | some t => t.own | none => false
   match key with
   | some (n, s, t) =>
+    if own then
+      -- a generator whose time function is a per-instance copy of the clock: never entered into the table;
+      -- when it disagrees with what the table holds for the current time, the reason is named as such
+      match e.res, st.table.lookup (n, s, t) with
+      | .ok v, some v' =>
+        if v == v' then st
+        else fail st s!"own-clock: event {i} ({e.tag}): generator ({n}, {s}) follows a copy of the clock and returned at time {t} another value than the generators on the shared clock"
+      | _, _ => st
+    else
     let placeholder (st : SpecSt) : SpecSt :=
       fail st s!"event {i} ({e.tag}): read of a time-dependent generator returned the placeholder at time {e.clock.time}"
     match e.res with
